@@ -84,6 +84,9 @@ theorem reach_runOp (kinds : Array String) (depth : Nat) (x : GcScript.St × Boo
   | collect => exact reach_applyE (o := .collect) h trivial
   | sdeps n ds => exact reach_applyE (o := .dump) h trivial
   | sadd n d => exact reach_applyE (o := .dump) h trivial
+  | hold a b => exact reach_applyE (o := .dump) h trivial
+  | unhold a b => exact reach_applyE (o := .dump) h trivial
+  | unholdAll a => exact reach_applyE (o := .dump) h trivial
 
 theorem reach_runOps (kinds : Array String) (depth : Nat) (l : List GOp)
     (x : GcScript.St × Bool) (h : Reachable x.1) :
@@ -91,13 +94,84 @@ theorem reach_runOps (kinds : Array String) (depth : Nat) (l : List GOp)
   foldl_preserves (P := fun x : GcScript.St × Bool => Reachable x.1)
     (fun x o hx => reach_runOp kinds depth x o hx) l x h
 
+/-! ### handles owned by Rust values (`held`): still only drops and collections -/
+
+/-- letting go of what dead owners held is a sequence of `dropHandle`s -/
+theorem reach_sweep (kinds : Array String) :
+    ∀ (fuel : Nat) (y : HSt), Reachable y.1.1 → Reachable (sweep kinds fuel y).1.1 := by
+  intro fuel
+  induction fuel with
+  | zero => intro y h; unfold sweep; exact h
+  | succ fuel ih =>
+    intro y h
+    obtain ⟨x, held⟩ := y
+    unfold sweep
+    split
+    · exact h
+    · exact ih _ (reach_dropHandle _ _ _ h)
+
+/-- a collection that goes on while freed owners let go of what they held: collections and sweeps -/
+theorem reach_collectLoop (kinds : Array String) :
+    ∀ (fuel : Nat) (y : HSt), Reachable y.1.1 → Reachable (collectLoop kinds fuel y).1.1 := by
+  intro fuel
+  induction fuel with
+  | zero => intro y h; unfold collectLoop; exact h
+  | succ fuel ih =>
+    intro y h
+    unfold collectLoop
+    have h' : Reachable (sweep kinds (y.2.length + 1) (applyE y.1 .collect, y.2)).1.1 :=
+      reach_sweep kinds _ _ (reach_applyE (o := .collect) h trivial)
+    dsimp only
+    split
+    · exact h'
+    · exact ih _ h'
+
+theorem reach_runOpH (kinds : Array String) (depth : Nat) (y : HSt) (o : GOp)
+    (h : Reachable y.1.1) : Reachable (runOpH kinds depth y o).1.1 := by
+  have hs : ∀ o : GOp, Reachable
+      (sweep kinds (y.2.length + 1) (runOp kinds depth y.1 o, y.2)).1.1 :=
+    fun o => reach_sweep kinds _ _ (reach_runOp kinds depth y.1 o h)
+  cases o with
+  | hold a b => exact h
+  | unhold a b =>
+    show Reachable (if y.2.contains (a, b) then
+      sweep kinds (y.2.length + 1) (dropHandle kinds y.1 b, y.2.erase (a, b)) else y).1.1
+    split
+    · exact reach_sweep kinds _ _ (reach_dropHandle _ _ _ h)
+    · exact h
+  | unholdAll a =>
+    refine reach_sweep kinds _ _ ?_
+    exact foldl_preserves (P := fun x : GcScript.St × Bool => Reachable x.1)
+      (fun x ot hx => reach_dropHandle kinds x ot.2 hx) _ y.1 h
+  | collect => exact reach_collectLoop kinds _ y h
+  | eot =>
+    show Reachable (if depth = 0 then collectLoop kinds (y.2.length + 1) y else y).1.1
+    split
+    · exact reach_collectLoop kinds _ y h
+    · exact h
+  | dec a => exact hs _
+  | cut a b => exact hs _
+  | new k => exact hs _
+  | inc a => exact hs _
+  | edge a b => exact hs _
+  | unedge a b => exact hs _
+  | deref a b => exact hs _
+  | sdeps n ds => exact hs _
+  | sadd n d => exact hs _
+
+theorem reach_runOpsH (kinds : Array String) (depth : Nat) (l : List GOp)
+    (y : HSt) (h : Reachable y.1.1) :
+    Reachable (l.foldl (runOpH kinds depth) y).1.1 :=
+  foldl_preserves (P := fun y : HSt => Reachable y.1.1)
+    (fun y o hy => reach_runOpH kinds depth y o hy) l y h
+
 theorem reach_runG (p : PSt) (l : List GOp) (h : Reachable p.gs) : Reachable (runG p l).gs :=
-  reach_runOps _ _ l (p.gs, p.err) h
+  reach_runOpsH _ _ l ((p.gs, p.err), p.held) h
 
 /-! ### the rewiring of the switches -/
 
-theorem reach_rewire (kinds : Array String) (hints : List (Nat × Int)) (x : GcScript.St × Bool)
-    (r : SwRec) (h : Reachable x.1) : Reachable (rewire kinds hints x r).1.1 := by
+theorem reach_rewire (kinds : Array String) (hints : List (Nat × Int)) (y : HSt)
+    (r : SwRec) (h : Reachable y.1.1) : Reachable (rewire kinds hints y r).1.1.1 := by
   unfold rewire
   dsimp only
   split
@@ -105,13 +179,110 @@ theorem reach_rewire (kinds : Array String) (hints : List (Nat × Int)) (x : GcS
   · split
     · split
       · exact h
-      · exact reach_runOps _ _ _ x h
+      · exact reach_runOpsH _ _ _ y h
     · exact h
 
 theorem reach_rewireAll (p : PSt) (h : Reachable p.gs) : Reachable (rewireAll p).gs := by
   unfold rewireAll
-  exact foldl_preserves (P := fun acc : (GcScript.St × Bool) × List SwRec => Reachable acc.1.1)
-    (fun acc r hacc => reach_rewire p.kinds p.hints acc.1 r hacc) p.sw ((p.gs, p.err), []) h
+  exact foldl_preserves (P := fun acc : HSt × List SwRec => Reachable acc.1.1.1)
+    (fun acc r hacc => reach_rewire p.kinds p.hints acc.1 r hacc) p.sw
+    (((p.gs, p.err), p.held), []) h
+
+/-! ### with no handle owned by a value, `runOpH` is `runOp` -/
+
+/-- an operation that does not touch `held` -/
+def GOp.plain : GOp → Bool
+  | .hold _ _ | .unhold _ _ | .unholdAll _ => false
+  | _ => true
+
+theorem sweep_nil (kinds : Array String) (fuel : Nat) (x : GcScript.St × Bool) :
+    sweep kinds fuel (x, []) = (x, []) := by
+  cases fuel <;> simp [sweep]
+
+theorem collectLoop_nil (kinds : Array String) (fuel : Nat) (x : GcScript.St × Bool) :
+    collectLoop kinds (fuel + 1) (x, []) = (applyE x .collect, []) := by
+  simp [collectLoop, sweep_nil]
+
+theorem runOpH_nil (kinds : Array String) (depth : Nat) (x : GcScript.St × Bool) (o : GOp)
+    (ho : o.plain = true) : runOpH kinds depth (x, []) o = (runOp kinds depth x o, []) := by
+  cases o with
+  | hold a b => simp [GOp.plain] at ho
+  | unhold a b => simp [GOp.plain] at ho
+  | unholdAll a => simp [GOp.plain] at ho
+  | collect => exact collectLoop_nil kinds 0 x
+  | eot =>
+    show (if depth = 0 then collectLoop kinds ([] : List (Nat × Nat)).length.succ (x, []) else (x, [])) =
+      (if depth = 0 then applyE x .collect else x, [])
+    split
+    · exact collectLoop_nil kinds 0 x
+    · rfl
+  | dec a => exact sweep_nil kinds _ _
+  | cut a b => exact sweep_nil kinds _ _
+  | new k => exact sweep_nil kinds _ _
+  | inc a => exact sweep_nil kinds _ _
+  | edge a b => exact sweep_nil kinds _ _
+  | unedge a b => exact sweep_nil kinds _ _
+  | deref a b => exact sweep_nil kinds _ _
+  | sdeps n ds => exact sweep_nil kinds _ _
+  | sadd n d => exact sweep_nil kinds _ _
+
+theorem runOpsH_nil (kinds : Array String) (depth : Nat) : ∀ (l : List GOp) (x : GcScript.St × Bool),
+    (∀ o ∈ l, o.plain = true) →
+    l.foldl (runOpH kinds depth) (x, []) = (l.foldl (runOp kinds depth) x, []) := by
+  intro l
+  induction l with
+  | nil => intro x _; rfl
+  | cons o r ih =>
+    intro x hl
+    rw [List.foldl_cons, List.foldl_cons, runOpH_nil kinds depth x o (hl o List.mem_cons_self)]
+    exact ih _ (fun o' ho' => hl o' (List.mem_cons_of_mem _ ho'))
+
+/-- with no handle owned by a value and operations that create none, `runG` is the fold of `runOp` it was before
+    `held` existed, and `held` stays empty -/
+theorem runG_nil (p : PSt) (l : List GOp) (hh : p.held = []) (hl : ∀ o ∈ l, o.plain = true) :
+    runG p l =
+      let kinds := l.foldl (fun k o => match o with | .new kd => k.push kd | _ => k) p.kinds
+      let x := l.foldl (runOp kinds p.depth) (p.gs, p.err)
+      { p with gs := x.1, err := x.2, kinds := kinds, held := [] } := by
+  unfold runG
+  dsimp only
+  rw [hh, runOpsH_nil _ _ l _ hl]
+  rfl
+
+theorem leakOps_plain (p : PSt) : ∀ o ∈ leakOps p, o.plain = true := by
+  intro o ho
+  unfold leakOps at ho
+  simp only [List.mem_flatMap] at ho
+  obtain ⟨⟨nm, v⟩, hm, hv⟩ := ho
+  clear hm
+  dsimp only at hv
+  split at hv
+  · rename_i li n strong
+    cases strong
+    · simp at hv; rw [hv]; rfl
+    · simp at hv; rcases hv with hv | hv <;> rw [hv] <;> rfl
+  · simp at hv
+
+/-- `leakcheck` as it is when no Rust value owns a handle (the `else` branch of `leakStep`): drop everything but the
+    rooted listeners, collect -/
+def leakStep0 (p : PSt) : PSt × List Nat :=
+  let p := runG p (leakOps p)
+  let keep := p.env.filterMap fun (_, v) => match v with | .rooted li => some li | _ => none
+  let x := dropAll p.kinds keep (p.gs, p.err)
+  let x := applyE (zeroAll keep x.1, x.2) .collect
+  ({ p with gs := x.1, err := x.2, env := [] }, keep)
+
+theorem leakStep_of_held_nil (p : PSt) (hh : p.held = []) : leakStep p = leakStep0 p := by
+  unfold leakStep
+  rw [if_neg (by simp [hh])]
+  rfl
+
+theorem leakStep_of_held_ne (p : PSt) (hh : p.held ≠ []) : leakStep p = leakStepH p := by
+  unfold leakStep
+  rw [if_pos (by simpa using hh)]
+
+theorem runG_leakOps_held_nil (p : PSt) (hh : p.held = []) : (runG p (leakOps p)).held = [] := by
+  rw [runG_nil p _ hh (leakOps_plain p)]
 
 theorem reach_ite {c : Prop} [Decidable c] {a b : PSt} (ha : Reachable a.gs)
     (hb : Reachable b.gs) : Reachable (if c then a else b).gs := by
@@ -127,6 +298,9 @@ theorem reach_dropAll (kinds : Array String) (keep : List Nat) (x : GcScript.St 
   exact foldl_preserves (P := fun x : GcScript.St × Bool => Reachable x.1)
     (fun x _ hx => reach_dropHandle kinds x a hx) _ x hx
 
+theorem reach_leakStepH (p : PSt) (h : Reachable p.gs) : Reachable (leakStepH p).1.gs :=
+  reach_runG _ _ (reach_runG p _ h)
+
 /-! ### `step` without the tokenisation -/
 
 /-- the body of `step` once the line is compiled (a copy of the `match` of `step`): string
@@ -136,12 +310,12 @@ def stepR (p : PSt) : R → PSt × String
     let p := runG { p with env := env } l
     let p := if balanced p then p else { p with err := true }
     (p, if p.err then "struct-error" else "ok")
-  | .sw pre atClose post env r =>
+  | .sw pre mid atClose post env r =>
     let p := runG { p with env := env, sw := p.sw ++ [r] } pre
     let p := if p.depth = 0 then
-        let p := runG (rewireAll p) ([.eot] ++ atClose)
+        let p := runG (rewireAll p) (mid ++ atClose)
         { p with env := p.env.filter fun kv => match kv.2 with | .temps _ => false | _ => true }
-      else { p with pend := p.pend ++ atClose }
+      else { (runG p mid) with pend := p.pend ++ atClose }
     let p := runG p post
     let p := if balanced p then p else { p with err := true }
     (p, if p.err then "struct-error" else "ok")
@@ -164,7 +338,8 @@ def stepR (p : PSt) : R → PSt × String
   | .leak =>
     let (p, keep) := leakStep p
     ({ p with sw := [] }, if p.err then "struct-error" else
-      s!"leak={leakCount p}" ++ if keep.isEmpty then "" else s!" listeners-still-rooted={keep.length}")
+      let nl := (keep.filter fun a => p.kinds.getD a "" == "Listener::new").length
+      s!"leak={leakCount p}" ++ if nl = 0 then "" else s!" listeners-still-rooted={nl}")
 
 /-- the words of a line, as `step` cuts them -/
 def tokens (line : String) : List String := (line.trimAscii.toString.splitOn " ").filter (· ≠ "")
